@@ -369,9 +369,11 @@ def inferRuntime (fuel : Nat) (st : St) (ty : Node) : List RT × St :=
       types.foldl (fun (acc : List RT × St) t =>
         let (more, st) := inferRuntime fuel acc.2 t; (rtExtend acc.1 more, st)) ([], st)
     | .mk .tsIndexed _ [objT, idxT] =>
+      -- an access that can't be followed: no runtime check, rather than `type: []` which no value passes
+      let orAny (r : List RT × St) : List RT × St := if r.1.isEmpty then ([some ANY_TYPE], r.2) else r
       match resolveIndexed fuel st objT idxT with
-      | (some t, st) => inferRuntime fuel st t
-      | (none, st) => ([], st)
+      | (some t, st) => orAny (inferRuntime fuel st t)
+      | (none, st) => ([some ANY_TYPE], st)
     -- a rest element of an indexed tuple: `[A, ...B[]][1]` is `B`
     | .mk (.other "TsRestType") _ [.mk .tsArray _ [elem]] => inferRuntime fuel st elem
     | .mk (.other "TsRestType") _ _ => ([some ANY_TYPE], st)
